@@ -7,6 +7,7 @@ import (
 	"github.com/cosmos/cosmos-sdk/codec"
 	codectypes "github.com/cosmos/cosmos-sdk/codec/types"
 
+	host "github.com/bianjieai/tibc-go/modules/tibc/core/24-host"
 	"github.com/bianjieai/tibc-go/modules/tibc/core/exported"
 )
 
@@ -71,6 +72,25 @@ func (p Packet) ValidateBasic() error {
 	if len(p.Data) == 0 {
 		return errorsmod.Wrap(ErrInvalidPacket, "packet data bytes cannot be empty")
 	}
+	return validateChainNames(p.SourceChain, p.DestinationChain, p.RelayChain)
+}
+
+// validateChainNames checks that the chain names of a packet are valid
+// identifiers. In particular they cannot contain the '/' separator, so the
+// store keys built from (source chain, destination chain, sequence) are
+// unambiguous.
+func validateChainNames(sourceChain, destChain, relayChain string) error {
+	if err := host.SourceChainValidator(sourceChain); err != nil {
+		return errorsmod.Wrap(err, "invalid source chain name")
+	}
+	if err := host.DestChainValidator(destChain); err != nil {
+		return errorsmod.Wrap(err, "invalid destination chain name")
+	}
+	if len(relayChain) > 0 {
+		if err := host.SourceChainValidator(relayChain); err != nil {
+			return errorsmod.Wrap(err, "invalid relay chain name")
+		}
+	}
 	return nil
 }
 
@@ -104,6 +124,19 @@ func (p CleanPacket) GetRelayChain() string { return p.RelayChain }
 func (p CleanPacket) ValidateBasic() error {
 	if p.Sequence == 0 {
 		return errorsmod.Wrap(ErrInvalidPacket, "packet sequence cannot be 0")
+	}
+	if len(p.SourceChain) > 0 {
+		if err := host.SourceChainValidator(p.SourceChain); err != nil {
+			return errorsmod.Wrap(err, "invalid source chain name")
+		}
+	}
+	if err := host.DestChainValidator(p.DestinationChain); err != nil {
+		return errorsmod.Wrap(err, "invalid destination chain name")
+	}
+	if len(p.RelayChain) > 0 {
+		if err := host.SourceChainValidator(p.RelayChain); err != nil {
+			return errorsmod.Wrap(err, "invalid relay chain name")
+		}
 	}
 	return nil
 }
